@@ -283,6 +283,28 @@ pub fn grid(sw: &Switches, tier: Tier) -> (Vec<Planned>, u64) {
             }
         }
     }
+    // D0. every selector with an ADPCM stage × every length 0..=96 × three small contents: the ADPCM stream of a
+    // handful of samples is longer than the samples (header, start values), a second stage may still make the
+    // whole smaller than the input — the one region where an intermediate stream exceeds the final size
+    {
+        let mut sel: Vec<u8> = vec![0x40, 0x80, 0xC0];
+        sel.extend(two_flag_selectors().into_iter().filter(|m| m & 0xC0 != 0));
+        sel.sort();
+        sel.dedup();
+        for m in sel {
+            for len in 0..=96usize {
+                let mut half: Vec<u8> = vec![0x47; len / 2];
+                let mut x = 0x9E37_79B9u32 ^ len as u32;
+                while half.len() < len {
+                    x = x.wrapping_mul(1664525).wrapping_add(1013904223);
+                    half.push((x >> 24) as u8);
+                }
+                for c in [Content::Bytes(half), desc(Kind::Const, len, 1, 0x41), desc(Kind::LowEnt, len, 1, 4)] {
+                    raw.push(Case { method: m, content: c });
+                }
+            }
+        }
+    }
     // D. every two-flag selector × 8 inputs
     for m in two_flag_selectors() {
         for c in [
